@@ -2,7 +2,8 @@
 from props import _positions as P
 
 THEOREMS = ['C15_window_shift', 'C15_from_text_slice_coord', 'C15_dyn_bytes_eq_str', 'C15_bytes_eq_str',
-            'C15_lookbehind_refuted', 'C15_example']
+            'C15_lookbehind_refuted', 'C15_example', 'C15_parse_window_shift', 'C15_driver_ignores_positions',
+            'C15_propagate_commutes', 'C15_parse_example']
 GEN_DEPS = ['LineCounter', 'LexStep', 'DynStep']
 RULE = ('the C06 grammars (token soup with every newline spelling; structured grammar with inlined/filtered/empty rules) x '
         'random ASCII inputs (accepted and rejected) x 5 parser/lexer configurations; each reference run on the plain str '
@@ -163,6 +164,7 @@ class Diff:
         # the Collector is used for its Coq-case accumulation; the oracle is the differential itself
         self.col = P.Collector(ctx, 'c15', lambda x: x if isinstance(x, list) else [], witness, run_witness)
         self.refs = {}
+        self.shifts = []      # (coq ShiftCase term, witness)
 
     def case(self, stream, g, parser, lexer, text, extra, rep, window, complete_slice=False, key=None):
         ctx = self.ctx
@@ -191,6 +193,17 @@ class Diff:
             ctx.violation('representation-differential', w, True, m, key=key)
         # Coq cases of the variant run (windows / bytes): the model is evaluated on what the lexer did
         self.col_add(var, w)
+        # tree level: the callback tree of the substring run, re-based in Coq, must give the window run's metas
+        if window is not None and ref['kind'] == 'ok' and var['kind'] == 'ok':
+            rt, vt = ref['tracer'], var['tracer']
+            if len(rt.pp_calls) == len(vt.pp_calls) and rt.pp_calls:
+                same = all(x['sel'] == y['sel'] and [k[0] for k in x['kids']] == [k[0] for k in y['kids']]
+                           for x, y in zip(rt.pp_calls, vt.pp_calls))
+                if same:
+                    for r in P.meta_roots(rt):
+                        if not rt.pp_calls[r]['filtered']:
+                            self.shifts.append(('ShiftCase %s %s (%s)' % (P.T(P.as_text(var['buf'])), P.Z(var['a']),
+                                                                        P.coq_ptree(rt, r, True, vt)), w))
 
     def col_add(self, out, w):
         tr = out['tracer']
@@ -259,6 +272,27 @@ def correspond(ctx):
         for rep in ('str', 'bytes'):
             d.case('exotic-F30', 'start: (A|B)+\nA: /a/\nB: /\\n/\n', 'earley', lexer, 'a\na', (), rep, None, complete_slice=True)
     d.col.check()
+    # tree-level window shift: Coq re-bases the substring run's callback tree and compares with the window run
+    seen, uniq = set(), []
+    for c, w in d.shifts:
+        if c not in seen:
+            seen.add(c)
+            uniq.append((c, w))
+    if uniq:
+        bad, errs = ctx.coq_bad_indices('c15_shift', 'From LV Require Import Pos.PosBase Pos.MetaSpan Pos.PosCheck Pos.ShiftCheck.',
+                                        'check_shift', [c for c, _ in uniq], chunk=400)
+        ctx.extra.setdefault('coq_case_kinds', {})['check_shift'] = len(uniq)
+        for e in errs:
+            ctx.violation('correspondence:coq-eval', {'error': e}, False, e[:300])
+        for i in bad[:5]:
+            w = uniq[i][1]
+            msgs = run_witness(w)
+            if msgs:
+                ctx.violation('correspondence+oracle:check_shift', w, True, msgs[0][1])
+            else:
+                what = 'Pos/MetaSpan.build on the re-based callback tree of the substring run vs the metas of the window run'
+                ctx.violation('correspondence:' + what, dict(w, no_longer_checks=what, coq_case=uniq[i][0][:1500]), False,
+                              'model and implementation disagree; the differential holds on this case')
 
 
 def replay(ctx, case):
